@@ -55,6 +55,7 @@ type Case struct {
 	InFiles  []string `json:"input_files"` // contents of the input files named as arguments
 	Extra    string   `json:"extra"`       // extra coverage run: count-append | set-overwrite | set-append-new | eqflags | mode-only
 	Straddle bool     `json:"straddle"`    // a statement list is left open across two program files
+	Missing  bool     `json:"missing_input"` // a non-existent input file is named as the last argument
 	NoCLI    bool     `json:"nocli"`       // correspondence of AddFile / Annotate only (no process is started)
 }
 
@@ -166,6 +167,9 @@ func (h *H) checkCase(n int, c *Case) (res caseResult) {
 			return
 		}
 		inArgs = append(inArgs, p)
+	}
+	if c.Missing {
+		inArgs = append(inArgs, filepath.Join(dir, "no-such-input.txt"))
 	}
 	progText := ""
 	for _, f := range c.Files {
@@ -380,7 +384,7 @@ func (h *H) checkCase(n int, c *Case) (res caseResult) {
 			if before.HasEmptyAction() {
 				class = "action-with-empty-body"
 			} else if codelessAction {
-				class = "action-body-of-only-empty-blocks"
+				class = "action-or-END-body-of-only-empty-blocks"
 			}
 			fail(class, "output and exit status equal with and without coverage", map[string]any{
 				"args": args, "expected_stdout": plain.Stdout, "expected_status": plain.Status,
@@ -548,6 +552,9 @@ func handCases() []*Case {
 		hand("empty-function", "function f() {}\nBEGIN { f(); print f() \"x\" }\n", in),
 		hand("empty-if-bodies", "BEGIN { if (1) ; else ; print \"k\" }\n", in),
 		hand("only-blocks", "{ { } }\nEND { { { } } }\n", in),
+		{Kind: "hand:end-only-blocks", Files: []PFile{{"a.awk", "END { { } }\n"}}, Input: in, Missing: true},
+		{Kind: "hand:end-only-blocks-begin", Files: []PFile{{"a.awk", "BEGIN { print 1 }\nEND { { } { { } } }\n"}}, Input: in, Missing: true, Extra: "eqflags"},
+		{Kind: "hand:missing-input", Files: []PFile{{"a.awk", "{ print }\nEND { print NR }\n"}}, Input: in, Missing: true},
 		hand("only-empty-loops", "{ while (i++ < 3) ; for (;j < 2;j++) {} }\n", in),
 		hand("pattern-only", "NR == 2\n/a/\n", in),
 		// every control-flow statement, nested, with early exits
@@ -660,7 +667,7 @@ func main() {
 
 	// ---- cases, all from one PRNG ----
 	r := hx.NewRand(o.Seed)
-	nGen, nAwk, nAnn := 110, 30, 1500
+	nGen, nAwk, nAnn := 45, 15, 1000
 	if o.Tier == "thorough" {
 		nGen, nAwk, nAnn = 6000, 1500, 60000
 	}
